@@ -276,6 +276,9 @@ def check(ctx):
     ctx.explanation = EXPLANATION
     ctx.not_decided = NOT_DECIDED
     prog = ctx.prog
+    import core as _core, c07 as _c07
+    nh = _core.adopt(ctx, _c07, lambda o: o["rule"] == "C07.h", "C01.h")
+    ctx.floor("C01.h", nh, 8, "shared handle-linearity obligations (C07.h): a registration stores the handle it is given")
     impls = trigger_impls(prog)
     ctx.floor("C01.a", len(impls), 11, "impls of ReactionTrigger")
     kinds = [k for k in (kind_of_trigger(ctx, prog, im) for im in impls) if k]
@@ -552,6 +555,18 @@ def check(ctx):
     # callers of the shared entity-scoped scheduler pass the same entity to the lookup and to the scheduler
     try:
         impl, ent_i, rea_i = A.entity_scheduler(prog)
+        rty_i = [i for i in range(1, impl.arg_count + 1) if impl.local_ty(i).endswith("::EntityReactionType")][0]
+        variants = set()
+        for (body, b, t, fr) in prog.callers_of(lambda n: n == impl.path):
+            for o in origins(body, t["args"][rty_i - 1]):
+                if o[0] == "agg" and len(o) == 3:
+                    variants.add(body.blocks[o[1]]["stmts"][o[2]]["rv"]["agg"].get("vname"))
+                else:
+                    variants.add("?")
+        ctx.check(variants >= {"Insertion", "Mutation", "Removal"}, "C01.a", "entity-scoped-dispatch:every-component-kind", "%s:%d" % (impl.file, impl.line),
+                  "the shared entity-scoped scheduler is invoked for Insertion, Mutation and Removal reactions",
+                  "entity-scoped reactors of kind %s are never dispatched (no scheduler passes that reaction type to the shared entity scheduler)"
+                  % sorted({"Insertion", "Mutation", "Removal"} - variants))
         for (body, b, t, fr) in prog.callers_of(lambda n: n == impl.path):
             ctx.touch(body)
             ent = tuple(sorted(map(tuple, origins(body, t["args"][ent_i - 1])), key=str))
@@ -657,10 +672,31 @@ def bundle_tuples(ctx, prog):
         if body.kind != "assoc_fn" or not (body.raw.get("impl_trait") or "").endswith("::ReactionTriggerBundle"):
             continue
         st = body.raw.get("impl_self", "")
+        nm = body.raw.get("name")
         if not st.startswith("("):
+            # the blanket impl for a single trigger: delegates to the trigger's own register / reactor_type exactly once
+            if nm == "register_triggers":
+                calls = [(b, t) for b, t, fr in body.iter_calls() if fr and lib.tail(mir.fn_name(fr), 2) == "ReactionTrigger::register"]
+                cnt, _, _ = lib.event_counts(body, [b for b, t in calls])
+                ok = cnt == {1} and all(lib.originates_from_arg(body, t["args"][0], 1) and lib.originates_from_arg(body, t["args"][1], 2)
+                                        and lib.originates_from_arg(body, t["args"][2], 3) for b, t in calls)
+                ctx.check(ok, "C01.a", "bundle(single)::register_triggers:registers-the-trigger", "%s:%d" % (body.file, body.line),
+                          "the single-trigger bundle registers its trigger exactly once with the given commands and handle",
+                          "the single-trigger bundle does not register its trigger exactly once on every path")
+                ctx.touch(body)
+            if nm == "collect_reactor_types":
+                rts = [b for b, t, fr in body.iter_calls() if fr and lib.tail(mir.fn_name(fr), 2) == "ReactionTrigger::reactor_type"]
+                sinks = [b for b, t, fr in body.iter_calls() if fr and lib.tail(mir.fn_name(fr), 1) in ("call_mut", "call", "call_once")
+                         and any(any(o[0] == "call" and o[1] in rts for o in origins(body, a)) or
+                                 any(o[0] == "agg" and any(any(o2[0] == "call" and o2[1] in rts for o2 in origins(body, x))
+                                                            for x in body.blocks[o[1]]["stmts"][o[2]]["rv"]["agg"]["ops"]) for o in origins(body, a) if len(o) == 3)
+                                 for a in t["args"][1:])]
+                cnt, _, _ = lib.event_counts(body, sinks)
+                ctx.check(cnt == {1}, "C01.a", "bundle(single)::collect_reactor_types:reports-the-trigger", "%s:%d" % (body.file, body.line),
+                          "the single-trigger bundle reports its reactor type exactly once", "the single-trigger bundle does not pass its reactor type to the collector exactly once")
+                ctx.touch(body)
             continue
         arity = 0 if st.strip() == "()" else len([x for x in st.strip("()").split(",") if x.strip()])
-        nm = body.raw.get("name")
         if nm not in ("register_triggers", "collect_reactor_types", "len"):
             continue
         n += 1
